@@ -1,12 +1,14 @@
 import Nervus.Driver.Util
 import Nervus.Driver.OKey
 import Nervus.Driver.Index
+import Nervus.Driver.Hnsw
 open Nervus.Driver
 
 /-- stream registry: one line per stream (kept one-per-line so that merges are unions) -/
 def streams : List (String × Stream) := [
   ("okey", OKeyStream.stream),
-  ("index", IndexStream.stream)
+  ("index", IndexStream.stream),
+  ("hnsw", HnswStream.stream)
 ]
 
 def main (args : List String) : IO UInt32 := do
